@@ -225,7 +225,10 @@ func runC20(c *Ctx) {
 				return cmpMatch(f, token.EQL, func(v ssa.Value) bool {
 					call, ok := v.(*ssa.Call)
 					return ok && extFn(call.Common(), "path/filepath", "Ext") && call.Common().Args[0] == ssa.Value(pathP)
-				}, func(v ssa.Value) bool { cs, ok := v.(*ssa.Const); return ok && cs.Value != nil && cs.Value.ExactString() == `".go"` })
+				}, func(v ssa.Value) bool {
+					cs, ok := v.(*ssa.Const)
+					return ok && cs.Value != nil && cs.Value.ExactString() == `".go"`
+				})
 			})
 			notTest := hasFact(facts, func(f Fact) bool {
 				if f.Y != nil || f.Op != token.NEQ {
